@@ -417,7 +417,7 @@ def run_seed(seed, tier):
         out['shapes'].append(simrun.jhash([item['target'], item['segs'], item['val'], 'ff']))
         stats['fault_free_mutations'] = 1
     for v in viols:
-        out['violations'].append(dict(v, digest=R.k.digest(), case={'prop': PROP, 'seed': seed, 'item': item, 'fault': None}))
+        out['violations'].append(dict(v, digest=simrun.jhash([R.k.digest()]), case={'prop': PROP, 'seed': seed, 'item': item, 'fault': None}))
     sh_after = canon.snap_struct(canon.snapshot(sh.root)) if verdict[0] == 'ok' else None
     allowed = _Allowed(G, item, sh_after)
     # enumerated single faults at every collaborator point
@@ -444,8 +444,10 @@ def run_seed(seed, tier):
         out['runs'] += 2 * min(L, 800)
         for v in viols3:
             c = v.pop('crash')
-            out['violations'].append(dict(v, digest=None, case={'prop': PROP, 'seed': seed, 'item': item,
-                                                                'fault': {'line': c['at'], 'exc': c['exc']}}))
+            R2 = Run(G, item, line_crash={'at': c['at'], 'exc': c['exc']})
+            out['violations'].append(dict(v, digest=simrun.jhash([R.k.digest(), R2.k.digest()]),
+                                          case={'prop': PROP, 'seed': seed, 'item': item,
+                                                'fault': {'line': c['at'], 'exc': c['exc']}}))
     if seed % 100 == 0:
         out['sample'] = {'seed': seed, 'item': {k_: item[k_] for k_ in ('target', 'segs', 'style', 'val', 'missing', 'api')},
                          'model_verdict': list(verdict), 'n_points': len(points)}
